@@ -203,6 +203,7 @@ void callerThread(ReqInfo r) {
 int ioFaultCode(const std::string& kind, char op) {
   if (kind == "readerr" && op == 'r') return EIO;
   if (kind == "readzero" && op == 'r') return -1;
+  if (kind == "readagain" && op == 'r') return EAGAIN;   // readiness was reported but there is nothing to read (legal for poll + read)
   if (kind == "writeerr" && op == 'w') return EIO;
   if (kind == "writeshort" && op == 'w') return -1;
   if (kind == "pollerr" && op == 'p') return -3;
